@@ -15,7 +15,19 @@ CHECKS = {
         text="The real recvRecord is handed one ARBITRARY symbolic record (symbolic type/version/body, enumerated length) while an honest writer has emitted two records; under the MAC/AEAD unforgeability assumption z3 proves that acceptance implies the yielded type and plaintext are exactly those of the record the writer sent at the reader's sequence number, and that every rejection is one of the record layer's integrity/decoding exceptions. SSLv2-framed bytes on a protected connection and TLS 1.3 inner-plaintext de-padding are separate obligations.",
         note="Unforgeability and bijectivity are assumptions (stated in evidence); block/stream ciphers are modelled statelessly, which only strengthens the adversary; lengths enumerated; timing not modelled.",
         design="5/C02", technique=T),
-    "C06": dict(
+    "C03": dict(
+        text="Decision code of the hello processing, driven as units on real connection objects. Server: the real _serverGetClientHello receives a ClientHello with symbolic legacy version, cipher-suite ids, FALLBACK_SCSV presence and supported_versions entries under a family of 13 validated settings and RSA/ECDSA credentials; z3 proves that whatever is returned lies inside the server's version range, passes the settings/version/certificate filters, was offered by the client (suite, version, signature scheme), and that a fallback SCSV is honoured; everything else ends in a fatal alert on the wire. Client: the real _handshakeClientAsyncHelper builds its own ClientHello and receives a ServerHello with symbolic version fields, suite, compression, random tail, session-id echo and EMS: it proceeds only with a version inside its settings, an offered suite the version defines, null compression, an echoed session id in TLS 1.3, EMS when required, and never past a downgrade sentinel. The suite filters themselves are proved against the IANA-name oracle (C20.2) and the server's resumption conditions in C13.1.",
+        note="What two LIVE endpoints hold after completion (equal secrets, exporter output, certificate chains) is not compared - no obligation runs two handshakes; groups/signature lists are fixed in the symbolic hellos; later flights are cut.",
+        design="5/C03", technique=T),
+    "C04": dict(
+        text="Transcript completeness on a real connection (every handshake message sent through _sendMsg/_queue_message or returned by _getMsg - incl. NewSessionTicket, with symbolic bodies and a symbolic record split - is hashed exactly once, whole, in order; non-handshake records are not; the wire carries exactly the hashed bytes); HandshakeHashes over the hash model (every digest covers everything fed, copies are independent, SSLv3 digest per RFC 6101); _getFinished completes only if CCS is 0x01 and verify_data equals calc_key(peer label, transcript) with the read state switched exactly once; the downgrade defences (server FALLBACK_SCSV, client sentinels) are the C03.2/C03.3 obligations, which run under this property too.",
+        note="'Every byte position of every flight' is replaced by: the transcript covers every handshake byte and completion requires the Finished MAC over it, under a collision-free hash model; TLS 1.3 Finished/CertificateVerify sites and HelloRetryRequest consistency are not driven yet; no man-in-the-middle run between live endpoints.",
+        design="5/C04", technique=T),
+    "C05": dict(
+        text="Proof sites driven with the peer's public key as a stub whose verify() is a symbolic predicate V: verifyServerKeyExchange accepts only a (hash, signature) pair the client offered for the certificate's key type, over exactly hash(client_random || server_random || params), only if V holds, never an empty signature; the TLS 1.3 PSK/ticket selection attributes a stored client identity only when that ticket was selected after its binder verified (C13.5); own signatures are emitted only after self-verification (C10.6); DSA acceptance is exact (C10.3); the SRP server refuses A = 0 mod N for every A; the Checker passes iff the fingerprint matches; and no error path that is meant to abort is a discarded generator call (AST, regenerated each run).",
+        note="TLS <= 1.2 and TLS 1.3 CertificateVerify verification sites inside the long handshake functions and post-handshake authentication are not driven (only their building blocks); signature mathematics is C10; certificate path validation is not done by the library.",
+        design="5/C05", technique=T),
+
         text="The gate every received message passes, TLSRecordLayer._getMsg(expected content types, expected handshake types), is executed on a real TLSConnection for every literal argument pair found at the library's call sites (read from the AST on each run), both roles and versions, with the next record's content type, handshake type and body symbolic: z3 proves that a message is returned only if its content type and handshake type were expected, and that everything else ends in a fatal alert that is on the wire before the exception (unexpected_message for a wrong type), the peer's own alert, or a decode error. Renegotiation attempts on an established connection are proved to be answered with no_renegotiation without touching state; the TLS 1.3 framing rules (CCS only as 0x01 in compatibility mode, no interleaving, key-change messages end on a record boundary, no empty non-application records, no empty record skipped while a handshake message is awaited) are separate obligations.",
         note="Null record protection (F-CONN); one or two records per obligation; the expectation sequences of whole handshake flows (which _getMsg arguments follow which) are covered only for the flows driven in C03/C04 obligations, not for every key-exchange middle; whole-trace languages by skip/duplicate/swap of honest traces need live runs and are not claimed.",
         design="5/C06", technique=T),
@@ -23,6 +35,10 @@ CHECKS = {
         text="Parser totality: every message class (constructed as _getMsg constructs it) and every extension class in every context is run on arbitrary symbolic bytes of each enumerated length; z3 shows that every feasible path ends in a value or in an exception type that _getMsg maps to an alert (SyntaxError family, TLSIllegalParameterException) and that the read index stays inside the buffer. The record layer's handling of undecodable framing is covered by C02.2.",
         note="Bounded by the enumerated input lengths (quick: extension payloads 0..8, messages up to 49 bytes); X.509 bodies are opaque; wall time and heap are not measured (no allocation sized by an unchecked peer length is the proxy); connection-level obligations are being added.",
         design="5/C08", technique=T),
+    "C13": dict(
+        text="Server session-ID resumption (real _serverGetClientHello with a cache holding one session whose resumable flag, suite, EMS, EtM and server name are symbolic selections, and a ClientHello with symbolic EMS/EtM/SNI): resumes only a live, resumable session whose suite is still allowed and offered and whose EMS/EtM/SNI are consistent, otherwise full handshake or alert, never an exception. TLS 1.2 tickets (_ticket_to_session/_tryDecrypt with an unforgeable AEAD model keyed by ticket key, symbolic clock/creation time/lifetime, rotated key sets, arbitrary forged ticket bytes): a session comes back only under a current key and unexpired. TLS 1.3 PSK selection (loop of _serverTLS13Handshake with symbolic ticket version/PRF/age/binder verdict): selected only if binder verified, version and PRF match, not expired; client identity only from the selected ticket. Client: resumption is assumed only when the server echoed the offered session ID, a declined ticket leads to a full handshake. Session.valid(); the cache itself (C18.1).",
+        note="A second LIVE handshake reproducing the first one's secrets is not run; the ticket encryption key derivation is reduced to key separation (HKDF is C09.12); stages after the resumption decision are cut.",
+        design="5/C13", technique=T),
     "C14": dict(
         text="RecordSocket._sockRecvAll/_sockSendAll are executed against a socket stub whose every recv()/send() either would-blocks or transfers a symbolic number of bytes: under every such schedule the value produced is exactly the next `length` symbolic bytes, nothing is read beyond them, one 0 is yielded per would-block, EOF is TLSAbruptCloseError and the loop never spins; everything passed to send is transmitted once and in order. The Defragmenter delivers the same two symbolic handshake messages (and an interleaved alert) wherever the stream is cut. TLSConnection.read() on a symbolic wire gives the same outcome (data, alert, abrupt close, closed flag) under every chunk schedule as under one-shot delivery. The blocking read/write/close are shown (AST pattern, regenerated each run) to be exactly 'exhaust the async generator', and AsyncStateMachine._checkAssert to admit at most one active operation for all flag combinations.",
         note="Streams of <= 7 bytes at socket level, 2-3 fragments in the defragmenter, chunk sizes {1, 2, all} and one would-block at connection level; whole handshakes under arbitrary schedules follow only by composition (all socket reads go through _sockRecvAll).",
@@ -35,6 +51,10 @@ CHECKS = {
         text="Kernels as exact bit-vector equivalences against an independent transcription of the RFC (ChaCha20 quarter/double round, 20-round block function, serialisation, keystream XOR for all keys, nonces, counters and plaintexts of the enumerated lengths; Poly1305 with its two field operations abstracted); modes and derivations with the kernels/hashes as uninterpreted functions: CBC and CTR incl. state carried across calls, AES-GCM, AES-CCM/CCM-8, ChaCha20-Poly1305 seal/open (open inverts seal and accepts exactly the right tag), 3DES-EDE-CBC keying, P_hash/PRF/PRF_SSL, HKDF-Expand(-Label)/Derive-Secret, and calc_key's PRF/seed/transcript choice per version, suite and label.",
         note="SHA/MD5 are the C library (uninterpreted); AES/DES round functions are abstracted as bijections (rijndael.py/Des kernels not yet encoded); GHASH multiplication is abstracted in the GCM mode check; HMAC is the standard library's in this environment (the fallback class in tlshmac.py is never defined); lengths as enumerated.",
         design="5/C09", technique=T),
+    "C10": dict(
+        text="DSA verify/sign on a toy group with (r, s), digest and nonce symbolic over their whole range: acceptance is exactly the FIPS 186 condition (0<r<q, 0<s<q, r == (g^u1 y^u2 mod p) mod q) and every signature produced verifies. Finite-field DH on a toy safe prime: a peer share is accepted iff 2 <= Y < p-1 and the result is not in {1, p-1}, wrong lengths are refused, both sides agree. X25519/X448 wrapper: wrong-length shares refused, an all-zero result refused for every possible result of the scalar multiplication (uninterpreted). Every signing site reachable as a unit (ServerKeyExchange for RSA-PKCS1/PSS, ECDSA, DSA, EdDSA; CertificateVerify) with a private key whose sign() returns arbitrary symbolic bytes and whose verify() is a symbolic predicate: a message is produced iff the fresh signature verified over the same bytes, else TLSInternalError.",
+        note="Toy groups (p=23); RSA PKCS#1/PSS encoding checks, X25519 ladder steps and python-ecdsa internals are not encoded yet; TLS 1.3 CertificateVerify creation sites are covered only by the discarded-generator lint (C05.8).",
+        design="5/C10", technique=T),
     "C11": dict(
         text="RSAKey.decrypt is executed with the private-key operation returning an arbitrary symbolic encoded message and with hashing/HMAC as uninterpreted functions; z3 proves for every EM and ciphertext of the enumerated modulus sizes that it never raises, consults no randomness, performs exactly one private operation, returns the real message iff the PKCS#1 v1.5 padding is valid and otherwise the synthetic message whose length is chosen from the ciphertext-keyed PRF alone (independent of the defect class), and None exactly for publicly invalid ciphertexts. RSAKeyExchange.processClientKeyExchange is proved to return 48 bytes on every path with identical RNG use, the real premaster iff length and version bytes are right.",
         note="Modulus sizes 16/32/48 bytes (quick) up to 64 (thorough); SHA-256/HMAC uninterpreted; timing/cache side channels are outside (the code itself documents CPython is not constant time); the wire behaviour of the whole server flow (no early alert) is not yet driven.",
